@@ -250,18 +250,19 @@ def _calls(ix, sc, stmt, target) -> bool:
 
 # ---------------------------------------------------------------------------------------------------- R01.3
 def r01_3_declared_is_enforced(chk, m):
+    from ..terms import is_call, call_arg, call_name, pp
     f, ctor = m.writer_ctor_call
-    vrl_arg = kw(ctor, "visible_record_length")
+    ds = chk.summary(f)
     wsul = m.writer_cls.lookup("write_storage_unit_label")
-    sul_args = []
-    for n in walk_local(f.node):
-        if isinstance(n, ast.Call) and wsul in chk.ix.resolve_call(n, Scope(chk.ix, f))[0] and n.args:
-            sul_args.append(n.args[0])
-    ok = bool(sul_args) and isinstance(vrl_arg, ast.Attribute) and vrl_arg.attr == "max_record_length" \
-        and all(norm(a) == norm(vrl_arg.value) for a in sul_args)
+    ctors = [c for c in ds.all_calls() if call_arg(c, kw="visible_record_length") is not None]
+    labels = [call_arg(c, 0) for c in ds.all_calls(wsul.name)]
+    vrl_arg = call_arg(ctors[0], kw="visible_record_length") if ctors else None
+    ok = bool(labels) and vrl_arg is not None and vrl_arg[0] == "attr" and vrl_arg[2] == "max_record_length" \
+        and all(a == vrl_arg[1] for a in labels)
     chk.require(ok, "R01.3", "label-length-is-writer-length",
-                f"the record length enforced by the writer (`{norm(vrl_arg)}`) is not the max_record_length of the "
-                f"label that is written (`{[norm(a) for a in sul_args]}`)", f"{f.module.relpath}:{ctor.lineno}")
+                f"the record length enforced by the writer (`{pp(vrl_arg) if vrl_arg else '?'}`) is not the "
+                f"max_record_length of the label that is written (`{[pp(a) for a in labels if a]}`)",
+                f"{f.module.relpath}:{ctor.lineno}")
     # the label's own field is stored unmodified from the constructor argument, and bounded by 16384
     sul = chk.ix.get_class("StorageUnitLabel")
     init = sul.lookup("__init__")
@@ -408,17 +409,19 @@ def r01_6_attribute_byte(chk, m):
     wv = try_const(w[0]) if w else None
     chk.require(wv == [128, 64, 32, 16, 8, 4, 2, 1], "R01.6", "weights", f"bit weights are {wv}", sa.where)
     init = sa.lookup("__init__")
-    lists = [n for n in walk_local(init.node) if isinstance(n, ast.Assign) and isinstance(n.value, ast.List)
-             and any(is_self_attr(t) for t in n.targets)]
+    from ..terms import SELF as _SELF, pp as _pp
+    isum = chk.summary(init)
+    lists = [e for e in isum.effects if e.kind == "store_attr" and e.base == _SELF and e.value[0] == "list"]
     if len(lists) != 1:
         raise AnalysisError("SegmentAttributes.__init__: flag list literal not found")
-    el = lists[0].value.elts
-    field = lists[0].targets[0].attr
-    shape = len(el) == 8 and norm(el[0]) == "is_eflr" and norm(el[1]) == "not is_first" \
-        and norm(el[2]) == "not is_last" and all(isinstance(e, ast.Constant) and e.value is False for e in el[3:])
+    el = lists[0].value[1]
+    field = lists[0].key
+    P = lambda n: ("param", n)  # noqa: E731
+    shape = len(el) == 8 and el[0] == P("is_eflr") and el[1] == ("not", P("is_first")) and el[2] == ("not", P("is_last")) \
+        and all(e == ("const", False) for e in el[3:])
     chk.require(shape, "R01.6", "flag-positions",
-                f"flag list is {[norm(e) for e in el]}; expected [is_eflr, not is_first, not is_last, False x5]",
-                f"{init.module.relpath}:{lists[0].lineno}")
+                f"flag list is {[_pp(e) for e in el]}; expected [is_eflr, not is_first, not is_last, False x5]",
+                lists[0].where)
     # writers of the flag list outside __init__: only index 7 (padding)
     for f in ix.functions.values():
         for n in walk_local(f.node):
